@@ -125,7 +125,7 @@ Proof.
   - rewrite N. exact Ir.
 Qed.
 
-Lemma zoff_bound z t : zfacts z -> -86400 <= zoff (abs_zone z) t <= 86400.
+Lemma zoff_bound z t : zfacts z -> -93599 <= zoff (abs_zone z) t <= 93599.
 Proof.
   intros F. rewrite abs_zone_eq. unfold zoff. cbn [zz_tr zz_doff].
   rewrite zoff_ob. apply ob_bound; exact F.
@@ -206,16 +206,16 @@ Qed.
 (* ================================================================== *)
 (* 2. MakeTime beyond last_year                                         *)
 
-(* every instant MakeTime reports lies within a day of the civil second *)
+(* every instant MakeTime reports lies within 26 hours (the widest offset, 25:59:59, plus one second) of the civil second *)
 Lemma zmake_bounds z L : zfacts z ->
   let c := zmake (abs_zone z) L in
-  L - 86401 <= zpre c <= L + 86401 /\ L - 86401 <= ztrans c <= L + 86401 /\
-  L - 86401 <= zpost c <= L + 86401.
+  L - 93600 <= zpre c <= L + 93600 /\ L - 93600 <= ztrans c <= L + 93600 /\
+  L - 93600 <= zpost c <= L + 93600.
 Proof.
   intros F. cbv zeta. rewrite abs_zone_eq, zmake_zmakeL.
   destruct (zf_wf z F) as (ST & SA & GP & NE).
-  assert (OB : forall m, -86400 <= ob (doff z) (absl z) m <= 86400) by (intros; apply ob_bound; exact F).
-  assert (OA : forall m a, nth_error (absl z) m = Some a -> -86400 <= zt_off a <= 86400).
+  assert (OB : forall m, -93599 <= ob (doff z) (absl z) m <= 93599) by (intros; apply ob_bound; exact F).
+  assert (OA : forall m a, nth_error (absl z) m = Some a -> -93599 <= zt_off a <= 93599).
   { intros m a Ha. rewrite <- (ob_S (doff z) _ _ _ Ha). apply OB. }
   destruct (zmake_cases (doff z) (absl z) L NE SA) as [m [HU|[HS|HR]]].
   - destruct HU as [E _]. rewrite E. unfold zunique. cbn [zpre ztrans zpost].
@@ -274,7 +274,7 @@ Proof.
   assert (2 ^ 60 = 1152921504606846976) as E60 by reflexivity. rewrite E60 in HT. clear E60 HTf.
   set (LY := z_last_year z) in *.
   set (A := tr_time l + off_of z (tr_type l)) in *.
-  assert (HA : 12622780800 - 86400 <= A <= 1152921504606846976 + 86400) by (unfold A; lia).
+  assert (HA : 12622780800 - 93599 <= A <= 1152921504606846976 + 93599) by (unfold A; lia).
   assert (E0 : fy (cos 0) = 1970) by (vm_compute; reflexivity).
   assert (HLY : 1970 <= LY).
   { rewrite <- HY, Ccs, <- E0. apply cos_year_mono. lia. }
